@@ -7,6 +7,7 @@ import (
 	"os"
 	"strconv"
 	"strings"
+	"time"
 
 	"github.com/innovationb1ue/RedisGO/util"
 )
@@ -60,6 +61,8 @@ func stringsUpTo(alpha []byte, n int) []string {
 	return out
 }
 
+const globHang = 4 * time.Second
+
 // runGlob: "G <pat> <sub>" -> appends 0/1/P ; "GE <pat> <alphabet> <maxlen>" -> appends one outcome char per subject.
 func runGlob(args []string) {
 	in := bufio.NewScanner(os.Stdin)
@@ -67,9 +70,32 @@ func runGlob(args []string) {
 	out := bufio.NewWriter(os.Stdout)
 	defer out.Flush()
 	cache := map[string][]string{}
+	// watchdog: "matching always terminates" — a line whose evaluation does not finish within globHang is answered with the outcome H
+	// and the process exits (the spinning goroutine cannot be stopped); the orchestrator restarts the engine after that line.
+	progress := make(chan struct{}, 1)
+	var current string
+	go func() {
+		for {
+			select {
+			case <-progress:
+			case <-time.After(globHang):
+				if current != "" {
+					out.Flush()
+					fmt.Fprintf(os.Stdout, "%s H\n", current)
+					os.Exit(0)
+				}
+			}
+		}
+	}()
 	for in.Scan() {
 		line := in.Text()
 		f := strings.Fields(line)
+		out.Flush()
+		current = line
+		select {
+		case progress <- struct{}{}:
+		default:
+		}
 		if len(f) == 3 && f[0] == "G" {
 			fmt.Fprintf(out, "%s %c\n", line, safeMatch(string(unhex(f[1])), string(unhex(f[2]))))
 		} else if len(f) == 4 && f[0] == "GE" {
